@@ -202,6 +202,8 @@ func (u *unmarshaler) Unmarshal(b *bufio.Reader) (WarcRecord, int64, *Validation
 	} else if err == io.EOF {
 		err = fmt.Errorf("unexpected end of record. Expected %q, was %q", crlfcrlf, buf)
 		_, _ = r.Discard(len(buf))
+	} else if err == nil {
+		err = fmt.Errorf("missing end of record marker. Expected %q, was %q", crlfcrlf, buf)
 	}
 	if err != nil {
 		switch u.opts.errSpec {
